@@ -26,7 +26,8 @@ def c07_projects(quick: bool, rng: random.Random) -> List[Dict[str, Any]]:
     ps = list(families.t3_reexport()) + [p for p in families.t5_duplicates() if "move" in p["meta"].get("shape", "")] \
         + list(families.t7_moved_class_with_moved_base()) + list(families.t8_prefix_roots()) \
         + list(families.t9_reexport_while_origin_processing()) + list(families.t11_cycle_rename_and_consumer_first()) \
-        + list(families.t14_two_roots_facade()) + list(families.t10_double_reexport()) + list(families.t16_type_checking_cycle())
+        + list(families.t14_two_roots_facade()) + list(families.t10_double_reexport()) + list(families.t16_type_checking_cycle()) \
+        + [p for p in families.t17_how_all_is_written() if p["meta"]["shape"] == "reexport"]
     ps += [p for p in families.rnd2_corpus(quick) if P.expected_reexports(p) or P.expected_reexports(p, multi=True)]
     if not quick:
         extra = [families.random_project(rng, rng.randint(3, 5)) for _ in range(300)]
@@ -187,6 +188,35 @@ def kf_module_shadowed(w: Dict[str, Any]) -> bool:
     return x is not None and ".".join(P.mod_path(proj, x["origin"] - 1)) in (taken - {x["new"]})
 
 
+def kf_all_in_parts(w: Dict[str, Any]) -> bool:
+    """Known finding: pydoctor reads __all__ from the LAST top-level statement `__all__ = <list or tuple literal>` only
+       (astbuilder.findModuleLevelAssign / parseAll, before the module is walked): names added by `__all__ += [...]`,
+       `__all__.extend([...])`, `__all__.append(...)` are not read, and a concatenation or an assignment nested in an `if` leaves
+       the module without __all__.  The names of the unread part are not re-exported.
+       Matches only when the object the failing expectation speaks about is exported under such an unread name."""
+    proj = w.get("origin", {}).get("project", {})
+    unread: Dict[str, set] = {}
+    for i, m in enumerate(proj.get("mods", [])):
+        if not m.get("hasAll"):
+            continue
+        q = ".".join(P.mod_path(proj, i))
+        if m.get("allform") in ("augmented", "extend", "append"):
+            unread[q] = set(m["all"][m.get("allsplit", len(m["all"])):])
+        elif m.get("allform") in ("concat", "conditional"):
+            unread[q] = set(m["all"])
+    if not any(unread.values()):
+        return False
+    det = w.get("detail", {})
+    keys = []
+    if "MovedOnce" in det:
+        keys.append(det["MovedOnce"]["expected"])
+    if "ConsumersResolve(static)" in det:
+        keys.append(det["ConsumersResolve(static)"]["expected"])
+    if not keys or not set(w.get("failed", [])) <= {"MovedOnce", "ConsumersResolve", "AnnotationLinks"}:
+        return False
+    return all(k.rsplit(".", 1)[0] in unread and k.rsplit(".", 1)[1] in unread[k.rsplit(".", 1)[0]] for k in keys)
+
+
 def kf_long_import_chain(w: Dict[str, Any]) -> bool:
     """Known finding: the re-exporting module gets the name through THREE or more intermediate modules that each import it plainly
     from the next (R: from .l3 import X; l3: from .l2 import X; l2: from .l1 import X; l1: from ._base import X): expandName follows
@@ -242,6 +272,7 @@ def run(ctx: Ctx) -> int:
     ctx.register_matcher("defining-module-shadowed-by-reexported-namesake", kf_module_shadowed)
     ctx.register_matcher("import-listed-in-all-then-rebound", kf_import_then_rebound)
     ctx.register_matcher("reexport-through-three-intermediate-imports", kf_long_import_chain)
+    ctx.register_matcher("all-written-in-parts-not-read", kf_all_in_parts)
     projs = c07_projects(ctx.quick, rng)
     results = procrun.explore(ctx, projs, record_states=False)
     oracles: Dict[int, Dict[str, Any]] = {}
